@@ -200,6 +200,7 @@ func report(w *World, cfg runConfig, units []*UnitResult, obls []*Obligation, bo
 			}
 			continue
 		}
+		fmt.Printf("  bounded stand-in %s (not counted as proved): %d cases, %d differ; bound: %s; %.1fs\n", b.Name, b.Cases, len(b.Failures), b.Bound, b.Seconds)
 		for _, f := range b.Failures {
 			kf := false
 			for _, k := range known {
